@@ -118,7 +118,21 @@ Proof.
             rewrite skipn_skipn'. f_equal. lia. }
         { split; [|left; reflexivity]. cbn [f_cur f_out rev] in *. rewrite join_sp_snoc_extend, Hc. reflexivity. }
       * split; [|right; exact Hwf]. cbn [f_cur f_out rev] in *. rewrite join_sp_snoc_extend, Hc. reflexivity.
-    + (* a non-space ends the run: it becomes the last complete run *)
+    + (* a non-space ends the run *)
+      destruct (is_tab ch) eqn:Et.
+      { (* ... a tab: the run is no place to cut, the last complete run stays *)
+        destruct (Nat.ltb w (S (f_col st))).
+        - destruct (f_last st) as [[p wl]|] eqn:El.
+          { destruct (Hl p wl eq_refl) as [A _]. pose proof (spaces_at_app _ _ _ ch A) as A'.
+            split.
+            - cbn [f_cur f_out rev]. rewrite <- app_assoc. cbn [app]. rewrite join_sp_snoc2.
+              rewrite (cut_rejoins _ _ _ A'). cbn [f_cur f_out rev] in Hc. rewrite join_sp_snoc_extend, Hc. reflexivity.
+            - right. split; cbn [f_last f_in]; [intros ? ? E; discriminate|discriminate]. }
+          { split; [|left; reflexivity]. cbn [f_cur f_out rev] in *. rewrite join_sp_snoc_extend, Hc. reflexivity. }
+        - split; [cbn [f_cur f_out rev] in *; rewrite join_sp_snoc_extend, Hc; reflexivity|].
+          right. split; cbn [f_last f_cur f_in]; [|discriminate].
+          intros p wl E. destruct (Hl p wl E) as [A _]. split; [apply spaces_at_app; exact A|discriminate]. }
+      (* ... anything else: it becomes the last complete run *)
       assert (A : spaces_at (f_cur st ++ [ch]) (f_rs st) (f_rl st)).
       { apply spaces_at_app. split; [exact R1|]. split; [lia|]. rewrite R3. rewrite firstn_all2; [reflexivity|rewrite repeat_length; lia]. }
       destruct (Nat.ltb w (S (f_col st))).
@@ -181,4 +195,126 @@ Proof.
   destruct H as [H _].
   - split; [reflexivity|]. right. split; cbn; [intros ? ? E; discriminate|discriminate].
   - exact H.
+Qed.
+
+(* ---- every written line starts with text: the reader never sees a "more-indented" line ---- *)
+Definition starts_ok (l : list N) : Prop := exists c r, l = c :: r /\ is_blank c = false.
+
+Definition good (st : fstate) : Prop :=
+  starts_ok (f_cur st) /\ Forall starts_ok (f_out st)
+  /\ (forall p wl, f_last st = Some (p, wl) ->
+        exists c, nth_error (f_cur st) (p + wl) = Some c /\ is_blank c = false).
+
+Lemma starts_ok_app l x : starts_ok l -> starts_ok (l ++ x).
+Proof. intros (c & r & -> & H). exists c, (r ++ x). split; [reflexivity|exact H]. Qed.
+
+Lemma spaces_at_nth cur p wl : spaces_at cur p wl -> nth_error cur p = Some SP.
+Proof.
+  intros (H1 & H2 & H3). destruct wl as [|wl]; [lia|].
+  assert (E : nth_error (firstn (S wl) (skipn p cur)) 0 = Some SP) by (rewrite H3; reflexivity).
+  destruct (skipn p cur) as [|x r] eqn:Es; [discriminate|]. cbn in E. inversion E; subst.
+  rewrite <- (firstn_skipn p cur) at 1. rewrite nth_error_app2 by (rewrite firstn_length; lia).
+  rewrite firstn_length. replace (p - Nat.min p (length cur))%nat with 0%nat by lia. rewrite Es. reflexivity.
+Qed.
+
+Lemma cut_line_starts cur p wl x : starts_ok cur -> spaces_at cur p wl -> starts_ok (firstn p cur ++ x).
+Proof.
+  intros (c & r & -> & H) A. apply spaces_at_nth in A. destruct p as [|p].
+  - cbn in A. inversion A; subst. discriminate.
+  - cbn [firstn]. exists c, (firstn p r ++ x). split; [reflexivity|exact H].
+Qed.
+
+Lemma rest_starts cur n c : nth_error cur n = Some c -> is_blank c = false -> starts_ok (skipn n cur).
+Proof.
+  revert n. induction cur as [|x r IH]; intros [|n] H Hb; try discriminate.
+  - cbn in H. inversion H; subst. exists c, r. split; [reflexivity|exact Hb].
+  - cbn [skipn]. apply (IH n); assumption.
+Qed.
+
+Lemma nth_app_keep (cur : list N) n c ch : nth_error cur n = Some c -> nth_error (cur ++ [ch]) n = Some c.
+Proof. intros H. rewrite nth_error_app1; [exact H|]. apply nth_error_Some. rewrite H. discriminate. Qed.
+
+Lemma nth_app_last (cur : list N) ch : nth_error (cur ++ [ch]) (length cur) = Some ch.
+Proof. rewrite nth_error_app2 by lia. rewrite Nat.sub_diag. reflexivity. Qed.
+
+Lemma good_keep_last st ch :
+  good st ->
+  (forall p wl, f_last st = Some (p, wl) ->
+     exists c, nth_error (f_cur st ++ [ch]) (p + wl) = Some c /\ is_blank c = false).
+Proof. intros (_ & _ & G) p wl E. destruct (G p wl E) as (c & H1 & H2). exists c. split; [apply nth_app_keep; exact H1|exact H2]. Qed.
+
+Lemma fstep_good w st ch consumed : inv st consumed -> good st -> good (fstep w st ch).
+Proof.
+  intros [_ Hw] G. pose proof (good_keep_last st ch G) as GL. destruct G as (G1 & G2 & G3). unfold fstep.
+  destruct (f_stop st) eqn:Es.
+  { split; [apply starts_ok_app; exact G1|]. split; [exact G2|exact GL]. }
+  destruct Hw as [Hw|Hw]; [discriminate|]. destruct Hw as [Hl Hr].
+  (* one cut, from a last complete run that is known to be spaces followed by text *)
+  assert (CUT : forall p wl in2 rs2 rl2,
+             spaces_at (f_cur st ++ [ch]) p wl ->
+             (exists c, nth_error (f_cur st ++ [ch]) (p + wl) = Some c /\ is_blank c = false) ->
+             good (mkF (skipn (p + wl) (f_cur st ++ [ch])) 0 None in2 rs2 rl2
+                       ((firstn p (f_cur st ++ [ch]) ++ repeat SP (wl - 1)) :: f_out st) false)).
+  { intros p wl in2 rs2 rl2 A (c & N1 & N2). split; cbn [f_cur f_out f_last].
+    - apply (rest_starts _ _ c); assumption.
+    - split; [|intros ? ? E; discriminate]. constructor; [|exact G2].
+      apply (cut_line_starts _ _ wl); [apply starts_ok_app; exact G1|exact A]. }
+  assert (KEEP : forall col last in2 rs2 rl2 stop,
+             (forall p wl, last = Some (p, wl) ->
+                exists c, nth_error (f_cur st ++ [ch]) (p + wl) = Some c /\ is_blank c = false) ->
+             good (mkF (f_cur st ++ [ch]) col last in2 rs2 rl2 (f_out st) stop)).
+  { intros. split; [apply starts_ok_app; exact G1|]. split; [exact G2|assumption]. }
+  destruct (f_in st) eqn:Ein; cbn [andb].
+  - destruct (Hr eq_refl) as (R1 & R2 & R3).
+    destruct (is_sp ch) eqn:Esp; cbn [negb].
+    + destruct (Nat.ltb w (S (f_col st))).
+      * destruct (f_last st) as [[p wl]|] eqn:El; [|apply KEEP; intros ? ? E; discriminate].
+        apply CUT; [apply spaces_at_app; apply (Hl p wl eq_refl)|apply GL; reflexivity].
+      * apply KEEP. exact GL.
+    + destruct (is_tab ch) eqn:Et.
+      * destruct (Nat.ltb w (S (f_col st))).
+        { destruct (f_last st) as [[p wl]|] eqn:El; [|apply KEEP; intros ? ? E; discriminate].
+          apply CUT; [apply spaces_at_app; apply (Hl p wl eq_refl)|apply GL; reflexivity]. }
+        { apply KEEP. exact GL. }
+      * assert (A : spaces_at (f_cur st ++ [ch]) (f_rs st) (f_rl st)).
+        { apply spaces_at_app. split; [exact R1|]. split; [lia|]. rewrite R3. rewrite firstn_all2; [reflexivity|rewrite repeat_length; lia]. }
+        assert (B : exists c, nth_error (f_cur st ++ [ch]) (f_rs st + f_rl st) = Some c /\ is_blank c = false).
+        { exists ch. rewrite R2. split; [apply nth_app_last|]. unfold is_blank. rewrite Esp, Et. reflexivity. }
+        destruct (Nat.ltb w (S (f_col st))).
+        { apply CUT; assumption. }
+        { apply KEEP. intros p wl E. inversion E; subst. exact B. }
+  - destruct (is_sp ch) eqn:Esp.
+    + destruct (Nat.ltb w (S (f_col st))).
+      * destruct (f_last st) as [[p wl]|] eqn:El; [|apply KEEP; intros ? ? E; discriminate].
+        apply CUT; [apply spaces_at_app; apply (Hl p wl eq_refl)|apply GL; reflexivity].
+      * apply KEEP. exact GL.
+    + destruct (Nat.ltb w (S (f_col st))).
+      * destruct (f_last st) as [[p wl]|] eqn:El; [|apply KEEP; intros ? ? E; discriminate].
+        apply CUT; [apply spaces_at_app; apply (Hl p wl eq_refl)|apply GL; reflexivity].
+      * apply KEEP. exact GL.
+Qed.
+
+Lemma fold_left_good w : forall line st consumed, inv st consumed -> good st ->
+  good (fold_left (fstep w) line st).
+Proof.
+  induction line as [|c r IH]; intros st consumed H G; cbn [fold_left]; [exact G|].
+  apply (IH _ (consumed ++ [c])); [apply fstep_inv; exact H|apply (fstep_good w st c consumed); assumption].
+Qed.
+
+(* a logical line that starts with text is written as lines that all start with text (neither a space nor
+   a tab), so a reader folds every break between them into exactly one space *)
+Theorem folded_lines_start_with_text w c r :
+  is_blank c = false -> Forall starts_ok (fold_line w (c :: r)).
+Proof.
+  intros Hb. unfold fold_line. cbn [fold_left].
+  set (st0 := mkF [] 0 None false 0 0 [] false).
+  assert (I0 : inv st0 []).
+  { split; [reflexivity|]. right. split; cbn; [intros ? ? E; discriminate|discriminate]. }
+  assert (Hsp : is_sp c = false) by (unfold is_blank in Hb; destruct (is_sp c); [discriminate|reflexivity]).
+  assert (G1 : good (fstep w st0 c)).
+  { unfold fstep, st0. cbn [f_stop f_in andb f_last f_rl f_rs f_cur f_col f_out app length]. rewrite Hsp.
+    destruct (Nat.ltb w 1); (split; cbn [f_cur f_out f_last]; [exists c, []; split; [reflexivity|exact Hb]|split; [constructor|intros ? ? E; discriminate]]). }
+  pose proof (fstep_inv w st0 c [] I0) as I1.
+  pose proof (fold_left_good w r _ _ I1 G1) as (A & B & _).
+  apply Forall_rev. constructor; assumption.
 Qed.
